@@ -10,6 +10,45 @@ use rsdns::Result;
 use std::net::{Ipv4Addr, Ipv6Addr};
 use std::panic::{catch_unwind, AssertUnwindSafe};
 
+// ---- allocation counting (C20): a counting global allocator with a thread-local counter ----
+pub struct Counting;
+thread_local! {
+    static ALLOCS: std::cell::Cell<u64> = const { std::cell::Cell::new(0) };
+}
+unsafe impl std::alloc::GlobalAlloc for Counting {
+    unsafe fn alloc(&self, l: std::alloc::Layout) -> *mut u8 {
+        let _ = ALLOCS.try_with(|c| c.set(c.get() + 1));
+        std::alloc::System.alloc(l)
+    }
+    unsafe fn dealloc(&self, p: *mut u8, l: std::alloc::Layout) {
+        std::alloc::System.dealloc(p, l)
+    }
+    unsafe fn realloc(&self, p: *mut u8, l: std::alloc::Layout, n: usize) -> *mut u8 {
+        let _ = ALLOCS.try_with(|c| c.set(c.get() + 1));
+        std::alloc::System.realloc(p, l, n)
+    }
+    unsafe fn alloc_zeroed(&self, l: std::alloc::Layout) -> *mut u8 {
+        let _ = ALLOCS.try_with(|c| c.set(c.get() + 1));
+        std::alloc::System.alloc_zeroed(l)
+    }
+}
+pub fn allocs() -> u64 {
+    ALLOCS.with(|c| c.get())
+}
+thread_local! {
+    static MEASURED: std::cell::Cell<u64> = const { std::cell::Cell::new(0) };
+}
+// evaluate a crate call, adding the allocations it performed to MEASURED
+macro_rules! cnt {
+    ($e:expr) => {{
+        let before = allocs();
+        let v = $e;
+        let after = allocs();
+        MEASURED.with(|m| m.set(m.get() + (after - before)));
+        v
+    }};
+}
+
 fn sec(n: usize) -> RecordsSection {
     match n {
         0 => RecordsSection::Answer,
@@ -126,13 +165,13 @@ pub fn typed<R: ReadD>(ty: u16, r: &mut R) -> Option<Result<String>> {
 struct Seq<'r, 'a>(&'r mut MessageReader<'a>, &'r RecordMarker);
 impl ReadD for Seq<'_, '_> {
     fn run<D: RData + 'static>(&mut self) -> Result<D> {
-        self.0.record_data::<D>(self.1)
+        cnt!(self.0.record_data::<D>(self.1))
     }
 }
 struct At<'r, 'a>(&'r MessageReader<'a>, &'r RecordMarker);
 impl ReadD for At<'_, '_> {
     fn run<D: RData + 'static>(&mut self) -> Result<D> {
-        self.0.record_data_at::<D>(self.1)
+        cnt!(self.0.record_data_at::<D>(self.1))
     }
 }
 
@@ -162,6 +201,13 @@ fn r2s<T>(r: Result<T>, f: impl FnOnce(T) -> String) -> String {
 }
 
 pub fn op_script(a: &[&str]) -> String {
+    op_script_impl(a, false)
+}
+pub fn op_ascript(a: &[&str]) -> String {
+    op_script_impl(a, true)
+}
+
+fn op_script_impl(a: &[&str], count: bool) -> String {
     let n: usize = a[0].parse().unwrap();
     let gbufs: Vec<crate::guard::GuardBuf> =
         (0..n).map(|i| crate::guard::GuardBuf::new(&unhex(a[1 + i]))).collect();
@@ -209,16 +255,17 @@ pub fn op_script(a: &[&str]) -> String {
             continue;
         }
         let msg: &[u8] = msgs[ri];
+        MEASURED.with(|m| m.set(0));
         let res = catch_unwind(AssertUnwindSafe(|| -> String {
             let r = readers[ri].as_mut().unwrap();
             match p[0] {
-                "header" => r2s(r.header(), |h| fmt_header(&h)),
-                "seek" => r2s(r.seek(sec(num(1))), |_| String::new()),
-                "qcount" => format!("ok:{}", r.questions_count()),
-                "rcount" => format!("ok:{}", r.records_count()),
-                "rcountin" => format!("ok:{}", r.records_count_in(sec(num(1)))),
+                "header" => r2s(cnt!(r.header()), |h| fmt_header(&h)),
+                "seek" => r2s(cnt!(r.seek(sec(num(1)))), |_| String::new()),
+                "qcount" => format!("ok:{}", cnt!(r.questions_count())),
+                "rcount" => format!("ok:{}", cnt!(r.records_count())),
+                "rcountin" => format!("ok:{}", cnt!(r.records_count_in(sec(num(1))))),
                 "q" | "theq" => {
-                    let q = if p[0] == "q" { r.question() } else { r.the_question() };
+                    let q = if p[0] == "q" { cnt!(r.question()) } else { cnt!(r.the_question()) };
                     r2s(q, |q| {
                         format!(
                             "Q({},{},{})",
@@ -230,9 +277,9 @@ pub fn op_script(a: &[&str]) -> String {
                 }
                 "qref" | "theqref" => {
                     let q = if p[0] == "qref" {
-                        r.question_ref()
+                        cnt!(r.question_ref())
                     } else {
-                        r.the_question_ref()
+                        cnt!(r.the_question_ref())
                     };
                     match q {
                         Ok(q) => {
@@ -247,8 +294,8 @@ pub fn op_script(a: &[&str]) -> String {
                         Err(e) => format!("err:{}", err(&e)),
                     }
                 }
-                "skipq" => r2s(r.skip_questions(), |_| String::new()),
-                "marker" => match r.record_marker() {
+                "skipq" => r2s(cnt!(r.skip_questions()), |_| String::new()),
+                "marker" => match cnt!(r.record_marker()) {
                     Ok(m) => {
                         let s = format!("ok:{}", fmt_marker(&m));
                         markers.push(m);
@@ -256,7 +303,7 @@ pub fn op_script(a: &[&str]) -> String {
                     }
                     Err(e) => format!("err:{}", err(&e)),
                 },
-                "href" => match r.record_header_ref() {
+                "href" => match cnt!(r.record_header_ref()) {
                     Ok(h) => {
                         nrefs.push((ri, h.name().clone()));
                         markers.push(h.marker().clone());
@@ -264,7 +311,7 @@ pub fn op_script(a: &[&str]) -> String {
                     }
                     Err(e) => format!("err:{}", err(&e)),
                 },
-                "hdrH" => match r.record_header::<Name>() {
+                "hdrH" => match cnt!(r.record_header::<Name>()) {
                     Ok(h) => {
                         markers.push(h.marker().clone());
                         format!(
@@ -275,7 +322,7 @@ pub fn op_script(a: &[&str]) -> String {
                     }
                     Err(e) => format!("err:{}", err(&e)),
                 },
-                "hdrI" => match r.record_header::<InlineName>() {
+                "hdrI" => match cnt!(r.record_header::<InlineName>()) {
                     Ok(h) => {
                         markers.push(h.marker().clone());
                         format!(
@@ -293,19 +340,19 @@ pub fn op_script(a: &[&str]) -> String {
                     }
                     let mk = markers[k].clone();
                     match p[0] {
-                        "skipd" => r2s(r.skip_record_data(&mk), |_| String::new()),
-                        "bytes" => r2s(r.record_data_bytes(&mk), |b| fmt_slice(msg, b)),
-                        "opt" => r2s(r.opt_record(&mk), |o| fmt_opt(&o)),
+                        "skipd" => r2s(cnt!(r.skip_record_data(&mk)), |_| String::new()),
+                        "bytes" => r2s(cnt!(r.record_data_bytes(&mk)), |b| fmt_slice(msg, b)),
+                        "opt" => r2s(cnt!(r.opt_record(&mk)), |o| fmt_opt(&o)),
                         "optorskip" => {
                             if mk.rtype() == rsdns::records::Type::OPT {
-                                r2s(r.opt_record(&mk), |o| fmt_opt(&o))
+                                r2s(cnt!(r.opt_record(&mk)), |o| fmt_opt(&o))
                             } else {
-                                r2s(r.skip_record_data(&mk), |_| String::new())
+                                r2s(cnt!(r.skip_record_data(&mk)), |_| String::new())
                             }
                         }
-                        "bytesat" => r2s(r.record_data_bytes_at(&mk), |b| fmt_slice(msg, b)),
+                        "bytesat" => r2s(cnt!(r.record_data_bytes_at(&mk)), |b| fmt_slice(msg, b)),
                         _ => {
-                            let nr = r.name_ref_at(&mk);
+                            let nr = cnt!(r.name_ref_at(&mk));
                             nrefs.push((ri, nr));
                             format!("ok:NR(#{})", nrefs.len() - 1)
                         }
@@ -333,7 +380,7 @@ pub fn op_script(a: &[&str]) -> String {
                     if i >= nrefs.len() || j >= nrefs.len() || nrefs[i].0 != nrefs[j].0 {
                         return "nosuch".into();
                     }
-                    r2s(nrefs[i].1.eq(&nrefs[j].1), |b| format!("{}", b))
+                    r2s(cnt!(nrefs[i].1.eq(&nrefs[j].1)), |b| format!("{}", b))
                 }
                 "nrname" => {
                     let i = num(2);
@@ -341,11 +388,11 @@ pub fn op_script(a: &[&str]) -> String {
                         return "nosuch".into();
                     }
                     if p[1] == "H" {
-                        r2s(Name::try_from(&nrefs[i].1), |n| {
+                        r2s(cnt!(Name::try_from(&nrefs[i].1)), |n| {
                             format!("N({})", hex(n.as_str().as_bytes()))
                         })
                     } else {
-                        r2s(InlineName::try_from(&nrefs[i].1), |n| {
+                        r2s(cnt!(InlineName::try_from(&nrefs[i].1)), |n| {
                             format!("N({})", hex(n.as_str().as_bytes()))
                         })
                     }
@@ -357,7 +404,8 @@ pub fn op_script(a: &[&str]) -> String {
                     }
                     let mut lb = String::from("[");
                     let mut end = String::from("none");
-                    for l in nrefs[i].1.labels() {
+                    let mut it = cnt!(nrefs[i].1.labels());
+                    while let Some(l) = cnt!(it.next()) {
                         match l {
                             Ok(l) => lb.push_str(&format!(
                                 "{}:{},",
@@ -378,7 +426,11 @@ pub fn op_script(a: &[&str]) -> String {
         match res {
             Ok(s) => {
                 prev_ok = s.starts_with("ok") || s == "nosuch";
-                out.push(s)
+                if count {
+                    out.push(format!("{}@{}", s, MEASURED.with(|m| m.get())))
+                } else {
+                    out.push(s)
+                }
             }
             Err(pn) => {
                 let m = if let Some(s) = pn.downcast_ref::<&str>() {
@@ -549,6 +601,42 @@ fn fmt_any<D: RData + 'static>(d: &D) -> String {
     ));
     t!(Txt, |d| format!("D(Txt,{})", hex(&d.text)));
     "D(?)".into()
+}
+
+// allocation counts of the iterator API: new / question / questions() drain / records() items
+pub fn op_aiter(msg: &[u8]) -> String {
+    MEASURED.with(|m| m.set(0));
+    let mi = match cnt!(MessageIterator::new(msg)) {
+        Ok(mi) => mi,
+        Err(_) => return format!("new=err@{}", MEASURED.with(|m| m.get())),
+    };
+    let mut out = format!("new=ok@{}", MEASURED.with(|m| m.get()));
+    MEASURED.with(|m| m.set(0));
+    let _ = cnt!(mi.question());
+    out.push_str(&format!(" Q@{}", MEASURED.with(|m| m.get())));
+    MEASURED.with(|m| m.set(0));
+    let mut qs = cnt!(mi.questions());
+    while let Some(q) = cnt!(qs.next()) {
+        if q.is_err() {
+            break;
+        }
+    }
+    out.push_str(&format!(" QS@{}", MEASURED.with(|m| m.get())));
+    let mut rs = cnt!(mi.records());
+    out.push_str(" RS=[");
+    loop {
+        MEASURED.with(|m| m.set(0));
+        match cnt!(rs.next()) {
+            None => break,
+            Some(Ok((_, rr))) => out.push_str(&format!("{}@{},", rr.rtype.value(), MEASURED.with(|m| m.get()))),
+            Some(Err(_)) => {
+                out.push_str(&format!("err@{},", MEASURED.with(|m| m.get())));
+                break;
+            }
+        }
+    }
+    out.push(']');
+    out
 }
 
 pub fn op_rrset(ty: u16, msg: &[u8]) -> String {
